@@ -21,8 +21,13 @@ ATOMS = [
     ("k1=a", "kw", {"k1": 1}), ("k2='v {{ a }}'", "kw", {"k2": "v 1"}), ("k3='v\n{{ a }} w'", "kw", {"k3": "v\n1 w"}), ("k4=\"{% if a %}y{% endif %}\nz\"", "kw", {"k4": "y\nz"}),
     ("mode=only", "kw", {"mode": "ONLY-VAR"}), ("m2=deep", "kw", {"m2": "DEEP-VAR"}), ("data-z=b", "kw", {"data-z": "x<y"}), ("@ev=e|default:'z'", "kw", {"@ev": "z"}),
     ("x:y=a", "agg", ("x", {"y": 1})), ("x:z='q'", "agg", ("x", {"z": "q"})),
+    # a quoted string with nested template syntax FOLLOWED BY A FILTER: the property gives two defensible readings - the nested
+    # template is rendered and the filter applied to its output ("1"), or the stock Django reading of a quoted literal with a
+    # filter (the characters `{{ a }}`) - both are accepted (ALT); anything else (e.g. filter text leaking into the value) is not
+    ("k5=\"{{ a }}\"|default:\"x\"", "kw", {"k5": "1"}),
     ("...dct", "kw", {"k": "v", "n": 2}), ("...d3|default:e2", "kw", {"p": 3}), ("...e2|default:d3", "kw", {"p": 3}), ('...{"lit": a}', "kw", {"lit": 1}),
 ]
+ALT = {"k5": "{{ a }}"}      # second accepted reading of an atom's keyword value
 INVALID = ["**dct", "*lst", "k=...dct", "k=a|...b", "[...lst]", "{*lst}", '{"k": **dct}']
 LAYOUTS = [" ", "\n", "   "]
 
@@ -46,13 +51,13 @@ def _plain(v):
     return v
 
 
-def denote(combo):
+def denote(combo, alt=False):
     args, kwargs, groups = [], {}, {}
     for _src, kind, payload in combo:
         if kind == "pos":
             args.append(payload)
         elif kind == "kw":
-            kwargs.update(payload)
+            kwargs.update({k: (ALT[k] if alt and k in ALT else v) for k, v in payload.items()})
         else:
             groups.setdefault(payload[0], {}).update(payload[1])
     kwargs.update(groups)
@@ -89,7 +94,7 @@ def worker(job):
                 got = (_plain(seen[-1][0]), _plain(seen[-1][1])) if seen else "receiver not called"
             except Exception as e:      # noqa: BLE001
                 got = f"{type(e).__name__}: {e}"[:160]
-            if got != (want[0], want[1]) and len(fails) < 6:
+            if got != (want[0], want[1]) and got != denote(combo, alt=True) and len(fails) < 6:
                 fails.append({"input": {"template": src, "context": CTX}, "clause": "the receiver gets exactly the positional and keyword values the arguments denote",
                               "expected": {"args": want[0], "kwargs": want[1]}, "observed": got if isinstance(got, str) else {"args": got[0], "kwargs": got[1]}})
     if do_invalid:
